@@ -156,6 +156,14 @@ func propC16(c *Ctx) {
 	if c.Thorough {
 		n = 100000
 	}
+	// type codes are the caller's: codes beyond the built-in ones and beyond 32 bits come back unchanged; a multi-character
+	// symbol registered with the code of Unknown (0) is a registered symbol like any other
+	for _, big := range []int{1<<32 | 7, 1 << 40, 1<<31 + 9, 255, 256, 65536 + 7, tokenizers.Unknown} {
+		for _, in := range []string{"<=x", "<=>", "<<=", "=<=", "<"} {
+			runSymCase(c, []symReg{{[]rune("<"), tokenizers.Symbol}, {[]rune("<="), big}, {[]rune("<=>"), tokenizers.Keyword}}, []rune(in), 1)
+			runSymCase(c, []symReg{{[]rune("<=>"), big}, {[]rune("<="), tokenizers.Symbol}}, []rune(in), 1)
+		}
+	}
 	wide := []rune{'<', '=', '>', '!', 0x4e16, 0xe9, 'a'}
 	for i := 0; i < n; i++ {
 		k := 1 + c.Rng.Intn(7)
